@@ -126,6 +126,9 @@ KINDS = {"factory": k_factory, "empty_holder": lambda ctx: k_empty_holder(ctx), 
 
 
 def run(ctx):
+    from spverif.ref import enums as _enums
+    if ctx.shard[0] == 0:
+        _enums.check(ctx, "code_tables", ['spacepackets.cfdp.pdu.file_directive', 'spacepackets.cfdp.defs.PduType'])
     from spverif.san import scribble
     scribble.install()
     r = ctx.rng
